@@ -3,7 +3,7 @@
 Correspondence: the real TaskManager / core.run_once / core.run driven under a virtual clock
 (bacpypes.task._time replaced) against the Gallina model coq/theories/Sched.v + Deferred.v,
 and the direct, implementation-only predicate (a bookkeeping reference of what is pending)."""
-import itertools, logging, signal, sys
+import itertools, logging, signal, sys, time
 from fractions import Fraction as F
 from core import Case
 
@@ -18,7 +18,9 @@ RULE_BASE = ('cases: one case = the whole observable outcome (event trace of fir
         'callbacks, Defer, Poll, RunOnce, Run); (B) recurring tasks over interval/offset grids incl. 0.1 s, 0.3 s, 1/3 s with '
         'small and epoch-sized clocks, on-time and late firing, compared by tick (small clocks) or slot index (epoch clocks), and the API refusals '
         '(when=/delta= on a recurring task, resume before install, interval <= 0); '
-        '(D) deferred batches of <= 6 with every raising subset, flat and self-deferring, through run_once and run.  '
+        '(D) deferred batches of <= 6 with every raising subset, flat and self-deferring, through run_once and run, the functions being '
+        'bound methods, plain functions, lambdas, functools.partial objects, callable instances and builtins in turn; (L) 8-24 tasks pending at once '
+        'with removals from the middle of the heap; (K) install counter beyond 65536; (U) operations before the TaskManager exists.  '
         'non-trivial = at least one task fired or one deferred function was called; distinct by (config, op list).')
 TRUSTED = ['models coq/theories/Sched.v, Deferred.v written by hand after task.py:58-79,179-216,264-382 and core.py:123-233; tie = correspondence',
            'heapq (pop order = sorted order of (time, counter)) and binary64 arithmetic of RecurringTask.install_task: modelled exactly '
@@ -189,6 +191,9 @@ class Ref:
             if e is not None and self.process(e):
                 self.ev.append(('raise',))
         elif k == 'defer': self.dq = self.dq + [o[1]]
+        elif k == 'burn':
+            for _ in range(o[3]):
+                self.install_when(o[1], o[2])
         elif k == 'runonce': self.run_once()
         elif k == 'run': self.run()
         if err is not None:
@@ -211,10 +216,24 @@ class Hang(Exception):
 
 HANGS = [0]
 MAX_FAILS = 20000
+DEADLINE = [None]          # wall-clock budget of the direct predicate (a slow, not hanging, mutated library)
+
+
+class _Budget(Exception):
+    pass
 LOOP_TIMEOUT = 3.0
 
 
+WD = {'fired': 0, 'armed': False}
+
+
 def _alarm(sig, frm):
+    # the exception may be raised inside a destructor or a logging callback, where it is swallowed
+    # ("Exception ignored in ..."): remember that the deadline passed and re-arm, so that the loop is
+    # interrupted again shortly and guarded_loop reports the hang whatever happens to this exception
+    WD['fired'] += 1
+    if WD['armed']:
+        signal.setitimer(signal.ITIMER_REAL, 0.2)
     raise _Watchdog()
 
 
@@ -223,15 +242,22 @@ def guarded_loop(fn):
     if HANGS[0] >= 3:
         raise Hang('implementation loops do not return (3 hangs seen), giving up')
     old = signal.signal(signal.SIGALRM, _alarm)
+    WD['fired'], WD['armed'] = 0, True
     signal.setitimer(signal.ITIMER_REAL, LOOP_TIMEOUT)
+    hung = False
     try:
-        fn()
-    except _Watchdog:
-        HANGS[0] += 1
-        raise Hang('library loop did not return within %.0f s' % LOOP_TIMEOUT)
+        try:
+            fn()
+        except _Watchdog:
+            hung = True
     finally:
+        WD['armed'] = False
         signal.setitimer(signal.ITIMER_REAL, 0)
         signal.signal(signal.SIGALRM, old)
+    if hung or WD['fired']:
+        # also when the exception was swallowed somewhere and the loop came back on its own later
+        HANGS[0] += 1
+        raise Hang('library loop did not return within %.0f s' % LOOP_TIMEOUT)
 
 
 class _Hook(logging.Handler):
@@ -247,9 +273,10 @@ class Impl:
     """The real TaskManager + core loops under a virtual clock.  `tf` maps model ticks to the float
     handed to the library."""
 
-    def __init__(self, cfg, tf=float):
+    def __init__(self, cfg, tf=float, pre=(), kshift=0):
         import bacpypes.task as task, bacpypes.core as core
         self.task, self.core, self.tf = task, core, tf
+        self.kshift = kshift
         self.NOW = [0.0]
         self.trace = []
         self.submitted = []          # ids in the order core.deferred was called
@@ -269,7 +296,6 @@ class Impl:
         core.sleeptime = 0.0
         self.in_run = False
         task._time = self.clock
-        self.tm = task.TaskManager()
         self.hook = _Hook(self.trace)
         for fn in (core.run, core.run_once):
             lg = fn._logger
@@ -305,6 +331,15 @@ class Impl:
                 self.tasks.append(HRec(i, iv_ms, off_ms))
             else:
                 self.tasks.append(HOne(i))
+        # operations issued before a TaskManager exists go to task._unscheduled_tasks
+        for o in pre:
+            if o[0] == 'install':
+                self.api(lambda: self.tasks[o[1]].install_task(when=self.tf(o[2])))
+            elif o[0] == 'suspend':
+                self.api(lambda: self.tasks[o[1]].suspend_task())
+            else:
+                raise ValueError(o)
+        self.tm = task.TaskManager()
 
     ticks_per_s = TICKS_PER_S
 
@@ -343,9 +378,44 @@ class Impl:
                 raise
             self.trace.append(('act', k, j, True, T[j].taskTime))
 
+    KINDS = ('bound-method', 'function', 'lambda', 'partial', 'callable-instance', 'builtin')
+
+    def kind_of(self, d):
+        k = self.KINDS[(d[0] + self.kshift) % len(self.KINDS)]
+        if k == 'builtin' and (d[1] or d[2] or acts_of(d)):
+            k = 'function'            # a builtin can only stand for a plain function that does nothing but being logged
+        return k
+
     def submit(self, d):
+        """core.deferred with every kind of callable: bound method, plain function, lambda, functools.partial,
+        instance with __call__, builtin (list.append of the trace)"""
+        import functools
         self.submitted.append(d[0])
-        self.core.deferred(self.call_dfn, d)
+        k = self.kind_of(d)
+        outer = self
+        if k == 'bound-method':
+            self.core.deferred(self.call_dfn, d)
+        elif k == 'function':
+            def deferred_function():
+                outer.call_dfn(d)
+            deferred_function._dfn_id = d[0]
+            self.core.deferred(deferred_function)
+        elif k == 'lambda':
+            f = lambda: outer.call_dfn(d)
+            f._dfn_id = d[0]
+            self.core.deferred(f)
+        elif k == 'partial':
+            f = functools.partial(self.call_dfn, d)
+            self.core.deferred(f)
+        elif k == 'callable-instance':
+            class Callable(object):
+                _dfn_id = d[0]
+
+                def __call__(s):
+                    outer.call_dfn(d)
+            self.core.deferred(Callable())
+        else:
+            self.core.deferred(self.trace.append, ('call', d[0]))
 
     def call_dfn(self, d):
         self.trace.append(('call', d[0]))
@@ -388,6 +458,10 @@ class Impl:
                         self.trace.append(('raise',))
             guarded_loop(poll)
         elif k == 'defer': self.submit(o[1])
+        elif k == 'burn':
+            t, w = T[o[1]], self.tf(o[2])
+            for _ in range(o[3]):
+                t.install_task(when=w)
         elif k == 'runonce': guarded_loop(self.core.run_once)
         elif k == 'run':
             self.in_run = True
@@ -402,12 +476,26 @@ class Impl:
         return sorted(((w, n, t.i) for (w, n, t) in self.tm.tasks), key=lambda e: e[:2])
 
     def counter_value(self):
-        # itertools.count: peek without consuming
+        # itertools.count: peek without consuming; anything else is shown as -1 (and so disagrees with the model)
         r = repr(self.tm.counter)
-        return int(r[r.index('(') + 1:r.index(')')])
+        try:
+            return int(r[r.index('(') + 1:r.index(')')])
+        except ValueError:
+            return -1
 
     def pending_ids(self):
-        return [a[0][0] for (f, a, kw) in self.core.deferredFns]
+        import functools
+        out = []
+        for (f, a, kw) in self.core.deferredFns:
+            if hasattr(f, '_dfn_id'):
+                out.append(f._dfn_id)
+            elif isinstance(f, functools.partial):
+                out.append(f.args[0][0])
+            elif a and a[0] and a[0][0] == 'call':
+                out.append(a[0][1])
+            else:
+                out.append(a[0][0])
+        return out
 
 
 def canon_outcome(trace, heap, ctr, now, tasks, dqids, ct, showclock):
@@ -515,9 +603,9 @@ def boundary_histories():
     return out
 
 
-def impl_outcome(cfg, ops, mode):
+def impl_outcome(cfg, ops, mode, pre=(), kshift=0):
     """mode: 'int' (clock in whole seconds = ticks), 'tick' (1/3 us ticks), 'slot' (same, shown as slot indices)"""
-    im = Impl(cfg, tf_of(mode))
+    im = Impl(cfg, tf_of(mode), pre=pre, kshift=kshift)
     try:
         for o in ops:
             im.step(o)
@@ -596,7 +684,19 @@ def coq_op(o):
 
 
 def coq_ops(ops):
-    return '[' + ';'.join(coq_op(o) for o in ops) + ']'
+    """a list literal; ('burn', i, t, n) = n times Install i t, written with `repeat`"""
+    if not any(o[0] == 'burn' for o in ops):
+        return '[' + ';'.join(coq_op(o) for o in ops) + ']'
+    parts, cur = [], []
+    for o in ops:
+        if o[0] == 'burn':
+            parts.append('[' + ';'.join(coq_op(x) for x in cur) + ']')
+            parts.append('repeat (Install %d %s) %d' % (o[1], zc(o[2]), o[3]))
+            cur = []
+        else:
+            cur.append(o)
+    parts.append('[' + ';'.join(coq_op(x) for x in cur) + ']')
+    return '(' + ' ++ '.join(parts) + ')'
 
 
 def coq_run(cfg, ops, mode, jit):
@@ -623,8 +723,8 @@ def nontrivial(out):
     return False
 
 
-def mk_case(kind, cfg, ops, mode, jit):
-    exp, _ = impl_outcome(cfg, ops, mode)
+def mk_case(kind, cfg, ops, mode, jit, kshift=0):
+    exp, _ = impl_outcome(cfg, ops, mode, kshift=kshift)
     return Case(kind, coq_run(cfg, ops, mode, jit), exp, key=(repr(cfg), repr(ops), mode),
                 nontrivial=nontrivial(exp), desc=desc_of(cfg, ops, mode))
 
@@ -839,6 +939,53 @@ def deferred_cases(tier):
             for mask in range(1 << n):
                 out.append(relabel(shape, mask, [0]))
     return out
+
+
+# ---- (L) many tasks pending at once: heap shapes of depth 3-5, entries removed from the middle
+def random_history_L(rng, nops=140):
+    nt = rng.randrange(8, 25)
+    cfg = [ONE] * nt
+    ops = []
+    order = list(range(nt))
+    rng.shuffle(order)
+    for i in order:                                   # fill the heap: colliding times, arbitrary insertion order
+        ops.append(('install', i, rng.randrange(1, 30)))
+    clock = 0
+    for _ in range(nops):
+        r = rng.random()
+        i = rng.randrange(nt)
+        if r < 0.22: ops.append(('suspend', i))
+        elif r < 0.52: ops.append(('install', i, clock + rng.randrange(0, 25)))
+        elif r < 0.57: ops.append(('after', i, rng.randrange(0, 12)))
+        elif r < 0.62: ops.append(('resume', i))
+        elif r < 0.80:
+            ops.append(('advance', 1)); clock += 1
+        elif r < 0.93: ops.append(('poll',))
+        else: ops.append(('runonce',))
+    for _ in range(12):                               # then time goes on step by step
+        ops += [('advance', 3), ('poll',), ('poll',), ('runonce',)]
+    return cfg, ops
+
+
+# ---- (U) operations issued before a TaskManager exists (task._unscheduled_tasks)
+def gen_premanager(rng, restricted):
+    """returns (cfg, pre, equivalent model ops).  restricted: every task that is suspended is installed again later in
+    the prelude, so that the model (which has no pre-manager list) reaches the same state by plain installs"""
+    nt = rng.randrange(3, 7)
+    pre, lst, last = [], [], {}
+    for _ in range(rng.randrange(3, 12)):
+        if lst and rng.random() < 0.35:
+            i = rng.choice(lst)
+            pre.append(('suspend', i)); lst.remove(i)
+        else:
+            i = rng.randrange(nt)
+            t = rng.choice([1, 1, 2, 3])               # equal deadlines on purpose
+            pre.append(('install', i, t)); lst.append(i); last[i] = t
+    if restricted:
+        for i in sorted(last):
+            if i not in lst:
+                t = rng.choice([1, 2]); pre.append(('install', i, t)); lst.append(i); last[i] = t
+    return [ONE] * nt, pre, [('install', i, last[i]) for i in lst]
 
 
 # ---- (C) callbacks with scheduling actions
@@ -1064,6 +1211,22 @@ def cases(rng, tier):
     for n in range(300 if not big else 5000):
         seq = [rng.choice(ralpha4) for _ in range(7)]
         out.append(mk_case('S-raw-sample-len7-4tasks', plain4, resolve_rel(seq) + FLUSH, 'int' if n % 3 else 'fine', 1))
+    # (L) 8-24 tasks pending at once
+    for _ in range(120 if not big else 1500):
+        cfgl, opsl = random_history_L(rng)
+        out.append(mk_case('L-random-many-tasks', cfgl, opsl, 'int', 1))
+    # (K) the install counter far beyond 65536: ties among equal times still go by installation order
+    for n in ((65534, 70000) if big else (65534,)):
+        opsk = [('install', 0, 5), ('burn', 1, 9, n), ('install', 2, 5), ('install', 3, 5), ('install', 4, 5), ('install', 0, 5),
+                ('advance', 5), ('poll',), ('runonce',), ('advance', 9), ('runonce',)]
+        out.append(mk_case('K-counter-beyond-65536', [ONE] * 5, opsk, 'int', 1))
+    # (U) installs / suspends issued before the TaskManager exists, then the manager is created and time goes on
+    for _ in range(60 if not big else 600):
+        cfgu, pre, eq = gen_premanager(rng, restricted=True)
+        tail = [('advance', 1), ('poll',), ('runonce',), ('advance', 2), ('run',)]
+        exp, _ = impl_outcome(cfgu, tail, 'int', pre=pre)
+        out.append(Case('U-before-manager-exists', coq_run(cfgu, eq + tail, 'int', 1), exp, key=(repr(pre), 'pre'),
+                        nontrivial=nontrivial(exp), desc={'cfg': repr(cfgu), 'ops': repr(tail), 'pre': repr(pre), 'mode': 'int'}))
     # (C) callbacks that install / re-install / suspend / resume themselves or the other task
     alpha2 = alphabet(2)
     single = [()] + [(a,) for a in act_alphabet(2)]
@@ -1130,10 +1293,12 @@ def cases(rng, tier):
             ops = [('advance', 777, 777), first, ('reinstall', 0), ('install', 1, 900), ('todue',), ('runonce',), ('todue',), ('poll',)]
             out.append(mk_case('B-api-errors', cfgr, ops, 'tick', JIT_B))
     # (D) deferred batches
-    for forest in deferred_cases(tier):
+    for nth, forest in enumerate(deferred_cases(tier)):
         ops = [('defer', d) for d in forest]
-        out.append(mk_case('D-run_once', [], ops + [('runonce',)], 'int', 1))
-        out.append(mk_case('D-run', [], ops + [('run',)], 'int', 1))
+        # the callable kind of function k is KINDS[(k + shift) % 6]: over the masks every position is, in turn, a bound
+        # method, a plain function, a lambda, a functools.partial, an instance with __call__ (and a builtin when it is a leaf)
+        out.append(mk_case('D-run_once', [], ops + [('runonce',)], 'int', 1, kshift=nth % 6))
+        out.append(mk_case('D-run', [], ops + [('run',)], 'int', 1, kshift=(nth + 3) % 6))
     # deferred work submitted from (possibly raising) task callbacks that collide in time
     for _ in range(100 if tier != 'thorough' else 1000):
         nextid = [0]
@@ -1156,15 +1321,32 @@ def has_acts(cfg, ops):
         any(acts_of(d) for o in ops if o[0] == 'defer' for d in walk([o[1]]))
 
 
-def check_history(cfg, ops, mode, fails, stats):
+def check_history(cfg, ops, mode, fails, stats, pre=(), kshift=0):
     """Weakest reading of C14 on one history.  Bookkeeping (not a scheduler): which task is pending
     with which due time and installation rank, which deferred functions were submitted."""
-    im = Impl(cfg, tf_of(mode))
+    if DEADLINE[0] is not None and time.time() > DEADLINE[0]:
+        raise _Budget()
+    im = Impl(cfg, tf_of(mode), pre=pre, kshift=kshift)
     pending = {}            # i -> [due or None, rank]
     rank = itertools.count()
+    if pre:
+        # what was handed over before the manager existed: a suspend takes back one hand-over of that task;
+        # creating the manager installs what is left, in order
+        lst = []
+        for o in pre:
+            if o[0] == 'install':
+                lst.append(o[1])
+            elif o[1] in lst:
+                lst.remove(o[1])
+        for i in lst:
+            pending[i] = [im.tasks[i].taskTime, next(rank)]
     last_fire_at = {}
     desc = desc_of(cfg, ops, mode)
-    seen_trace = 0
+    if pre:
+        desc['pre'] = repr(list(pre))
+    if kshift:
+        desc['kshift'] = kshift
+    seen_trace = len(im.trace)
     calls_seen = []
     fired_any = False
 
@@ -1261,7 +1443,7 @@ def check_history(cfg, ops, mode, fails, stats):
                 raise
             return im
         errs = [e for e in im.trace[before:] if e[0] == 'err']
-        if k in ('install', 'after', 'reinstall', 'resume') and not errs:
+        if k in ('install', 'after', 'reinstall', 'resume', 'burn') and not errs:
             pending[o[1]] = [im.tasks[o[1]].taskTime, next(rank)]
             if k == 'reinstall' and cfg[o[1]][0][0] == 'rec' and not (im.tasks[o[1]].taskTime > im.NOW[0]):
                 fail('recurring-first-slot-not-strictly-after-install', task=o[1])
@@ -1374,10 +1556,18 @@ def direct(rng, tier, focus=()):
     fails = []
     stats = {'evaluations': 0, 'nontrivial': set()}
     samples = []
+    DEADLINE[0] = time.time() + (1500 if tier == 'thorough' else 300)
+    budget_hit = False
     try:
         _direct(rng, tier, focus, fails, stats, samples)
     except Hang:
         pass                                  # recorded by check_history; no point in waiting 3 s thousands of times
+    except _Budget:
+        budget_hit = True
+        if not fails:                         # slow machine, nothing wrong seen: say so rather than pretend full coverage
+            samples.append({'direct': 'time budget exhausted before all histories were run'})
+    finally:
+        DEADLINE[0] = None
     # shortest first, so that the replay written is the smallest
     fails.sort(key=lambda f: len(f.get('ops', '')))
     return fails, {'evaluations': stats['evaluations'], 'distinct_nontrivial': len(stats['nontrivial']),
@@ -1434,6 +1624,22 @@ def _direct(rng, tier, focus, fails, stats, samples):
     for key, seqs in explore(plain4, 5, mode='fine').items():
         for o in ralpha:
             check_history(plain4, resolve_rel(list(seqs[0]) + [o]), 'fine', fails, stats)
+    # 3d. many tasks pending at once; the install counter beyond 65536; operations before the manager exists;
+    #     deferred batches with every kind of callable
+    for _ in range(200 if not big else 2500):
+        cfgl, opsl = random_history_L(rng)
+        check_history(cfgl, opsl, 'int', fails, stats)
+    for n in ((65534, 70000, 140000) if big else (65534,)):
+        check_history([ONE] * 5, [('install', 0, 5), ('burn', 1, 9, n), ('install', 2, 5), ('install', 3, 5), ('install', 4, 5), ('install', 0, 5),
+                                  ('advance', 5), ('poll',), ('runonce',)], 'int', fails, stats)
+    for _ in range(150 if not big else 1500):
+        cfgu, pre, eq = gen_premanager(rng, restricted=False)
+        check_history(cfgu, [('advance', 1), ('poll',), ('runonce',), ('advance', 2), ('run',)], 'int', fails, stats, pre=pre)
+    for nth, forest in enumerate(deferred_cases(tier)):
+        opsd = [('defer', d) for d in forest]
+        for sh in ((nth % 6, (nth + 2) % 6, (nth + 4) % 6) if len(forest) <= 3 or big else ((nth + 1) % 6,)):
+            check_history([], opsd + [('runonce',)], 'int', fails, stats, kshift=sh)
+            check_history([], opsd + [('run',)], 'int', fails, stats, kshift=(sh + 3) % 6)
     # 3c. callbacks with scheduling actions; the recorded finding first
     selfsusp = [(('rec', 3 * TICKS_PER_S, 0), False, (), (('suspend', 0),))]
     check_history(selfsusp, [('advance', 777, 777), ('reinstall', 0), ('todue',), ('poll',), ('todue',), ('poll',)], 'tick', fails, stats)
@@ -1538,6 +1744,14 @@ def replay(payload):
     print('replay', f)
     if 'ops' in f:
         cfg, ops, mode = ast.literal_eval(f['cfg']), ast.literal_eval(f['ops']), f.get('mode', 'int')
+        pre = ast.literal_eval(f['pre']) if 'pre' in f else ()
+        ksh = int(f.get('kshift', 0))
+        if pre or ksh:
+            fails, stats = [], {'evaluations': 0, 'nontrivial': set()}
+            im = check_history(cfg, ops, mode, fails, stats, pre=pre, kshift=ksh)
+            print('implementation trace:', im.trace)
+            print('direct predicate:', fails or 'holds')
+            return
         out, im = impl_outcome(cfg, ops, mode)
         print('implementation trace:', im.trace)
         print('implementation outcome:', out)
